@@ -80,6 +80,82 @@ Example bnd_text : show_a (bnd_a (AOne (BQ [120] 97 (QBr [50] (BrTo [52])) false
                    = [120; 97; 97; 97; 63; 97; 63; 121]%N.
 Proof. reflexivity. Qed.
 
+(* r = r|r: the last alternative of every alternation (the whole pattern's included) written twice *)
+Fixpoint dup_b (b : branch) : branch :=
+  match b with
+  | BEnd cs => BEnd cs
+  | BGrp cs cap a b' => BGrp cs cap (dup_a a) (dup_b b')
+  | BQ cs c k rel b' => BQ cs c k rel (dup_b b')
+  | BAn cs eol b' => BAn cs eol (dup_b b')
+  | BD cs da q b' => BD cs da q (dup_b b')
+  end
+with dup_a (a : alt) : alt :=
+  match a with
+  | AOne b => ACons (dup_b b) (AOne (dup_b b))
+  | ACons b a' => ACons (dup_b b) (dup_a a')
+  end.
+(* a capturing group turned into a non-capturing one (XPath) *)
+Fixpoint uncap_b (b : branch) : branch :=
+  match b with
+  | BEnd cs => BEnd cs
+  | BGrp cs cap a b' => BGrp cs false (uncap_a a) (uncap_b b')
+  | BQ cs c k rel b' => BQ cs c k rel (uncap_b b')
+  | BAn cs eol b' => BAn cs eol (uncap_b b')
+  | BD cs da q b' => BD cs da q (uncap_b b')
+  end
+with uncap_a (a : alt) : alt :=
+  match a with
+  | AOne b => AOne (uncap_b b)
+  | ACons b a' => ACons (uncap_b b) (uncap_a a')
+  end.
+(* a quantified character wrapped in (?: ) (XPath) *)
+Fixpoint wrap_b (b : branch) : branch :=
+  match b with
+  | BEnd cs => BEnd cs
+  | BGrp cs cap a b' => BGrp cs cap (wrap_a a) (wrap_b b')
+  | BQ cs c k rel b' => BGrp cs false (AOne (BQ [] c k rel (BEnd []))) (wrap_b b')
+  | BAn cs eol b' => BAn cs eol (wrap_b b')
+  | BD cs da q b' => BD cs da q (wrap_b b')
+  end
+with wrap_a (a : alt) : alt :=
+  match a with
+  | AOne b => AOne (wrap_b b)
+  | ACons b a' => ACons (wrap_b b) (wrap_a a')
+  end.
+
+Example dup_text : show_a (dup_a (AOne (BGrp [120] true (ACons (BEnd [97]) (AOne (BEnd [98]))) (BEnd []))))%N
+                   = [120; 40; 97; 124; 98; 124; 98; 41; 124; 120; 40; 97; 124; 98; 124; 98; 41]%N.
+Proof. reflexivity. Qed.
+Example wrap_text : show_a (wrap_a (AOne (BQ [120] 97 QStar true (BEnd [121]))))%N = [120; 40; 63; 58; 97; 42; 63; 41; 121]%N.
+Proof. reflexivity. Qed.
+
+(* c{n} = n copies of c: they join the run before and the run after *)
+Definition pre_b (cs0 : list N) (b : branch) : branch :=
+  match b with
+  | BEnd cs => BEnd (cs0 ++ cs)
+  | BGrp cs cap a b' => BGrp (cs0 ++ cs) cap a b'
+  | BQ cs c k rel b' => BQ (cs0 ++ cs) c k rel b'
+  | BAn cs eol b' => BAn (cs0 ++ cs) eol b'
+  | BD cs da q b' => BD (cs0 ++ cs) da q b'
+  end.
+Fixpoint exa_b (b : branch) : branch :=
+  match b with
+  | BEnd cs => BEnd cs
+  | BGrp cs cap a b' => BGrp cs cap (exa_a a) (exa_b b')
+  | BQ cs c (QBr ds BrExact) rel b' => pre_b (cs ++ repeat c (N.to_nat (dec ds))) (exa_b b')
+  | BQ cs c k rel b' => BQ cs c k rel (exa_b b')
+  | BAn cs eol b' => BAn cs eol (exa_b b')
+  | BD cs da q b' => BD cs da q (exa_b b')
+  end
+with exa_a (a : alt) : alt :=
+  match a with
+  | AOne b => AOne (exa_b b)
+  | ACons b a' => ACons (exa_b b) (exa_a a')
+  end.
+Example exa_text : show_a (exa_a (AOne (BQ [120] 97 (QBr [51] BrExact) false (BQ [121] 98 QStar false (BEnd [])))))%N
+                   = [120; 97; 97; 97; 121; 98; 42]%N.
+Proof. reflexivity. Qed.
+
 Example plus_text : show_a (plus_a (AOne (BQ [120] 97 QPlus false (BEnd [121]))))%N = [120; 97; 97; 42; 121]%N.
 Proof. reflexivity. Qed.
 Example opt_text : show_a (opt_a (AOne (BQ [120] 97 QOpt false (BEnd [121]))))%N = [120; 40; 97; 124; 41; 121]%N.
@@ -162,6 +238,74 @@ Proof.
   - intros cs da q b IHb H. cbn [bnd_b ok_b] in *. apply andb_true_iff in H as [H Hb]. rewrite H, (IHb Hb). reflexivity.
   - intros b IHb H. exact (IHb H).
   - intros b IHb a IHa H. cbn [bnd_a ok_a] in *. apply andb_true_iff in H as [H1 H2]. rewrite (IHb H1), (IHa H2). reflexivity.
+Qed.
+
+Lemma dup_ok xpath : (forall b, ok_b xpath b = true -> ok_b xpath (dup_b b) = true)
+                     /\ (forall a, ok_a xpath a = true -> ok_a xpath (dup_a a) = true).
+Proof.
+  apply branch_alt_ind.
+  - intros cs H. exact H.
+  - intros cs cap a IHa b IHb H. cbn [dup_b ok_b] in *. apply andb_true_iff in H as [H Hb]. apply andb_true_iff in H as [H Ha].
+    rewrite H, (IHa Ha), (IHb Hb). reflexivity.
+  - intros cs c k rel b IHb H. cbn [dup_b ok_b] in *. apply andb_true_iff in H as [H Hb]. rewrite H, (IHb Hb). reflexivity.
+  - intros cs eol b IHb H. cbn [dup_b ok_b] in *. apply andb_true_iff in H as [H Hb]. rewrite H, (IHb Hb). reflexivity.
+  - intros cs da q b IHb H. cbn [dup_b ok_b] in *. apply andb_true_iff in H as [H Hb]. rewrite H, (IHb Hb). reflexivity.
+  - intros b IHb H. cbn [dup_a ok_a] in *. rewrite (IHb H). reflexivity.
+  - intros b IHb a IHa H. cbn [dup_a ok_a] in *. apply andb_true_iff in H as [H1 H2]. rewrite (IHb H1), (IHa H2). reflexivity.
+Qed.
+Lemma uncap_ok : (forall b, ok_b true b = true -> ok_b true (uncap_b b) = true)
+                 /\ (forall a, ok_a true a = true -> ok_a true (uncap_a a) = true).
+Proof.
+  apply branch_alt_ind.
+  - intros cs H. exact H.
+  - intros cs cap a IHa b IHb H. cbn [uncap_b ok_b] in *. apply andb_true_iff in H as [H Hb]. apply andb_true_iff in H as [H Ha].
+    apply andb_true_iff in H as [Hcs _]. rewrite Hcs, (IHa Ha), (IHb Hb). reflexivity.
+  - intros cs c k rel b IHb H. cbn [uncap_b ok_b] in *. apply andb_true_iff in H as [H Hb]. rewrite H, (IHb Hb). reflexivity.
+  - intros cs eol b IHb H. cbn [uncap_b ok_b] in *. apply andb_true_iff in H as [H Hb]. rewrite H, (IHb Hb). reflexivity.
+  - intros cs da q b IHb H. cbn [uncap_b ok_b] in *. apply andb_true_iff in H as [H Hb]. rewrite H, (IHb Hb). reflexivity.
+  - intros b IHb H. exact (IHb H).
+  - intros b IHb a IHa H. cbn [uncap_a ok_a] in *. apply andb_true_iff in H as [H1 H2]. rewrite (IHb H1), (IHa H2). reflexivity.
+Qed.
+Lemma wrap_ok : (forall b, ok_b true b = true -> ok_b true (wrap_b b) = true)
+                /\ (forall a, ok_a true a = true -> ok_a true (wrap_a a) = true).
+Proof.
+  apply branch_alt_ind.
+  - intros cs H. exact H.
+  - intros cs cap a IHa b IHb H. cbn [wrap_b ok_b] in *. apply andb_true_iff in H as [H Hb]. apply andb_true_iff in H as [H Ha].
+    rewrite H, (IHa Ha), (IHb Hb). reflexivity.
+  - intros cs c k rel b IHb H. cbn [ok_b] in H. apply andb_true_iff in H as [H Hb]. apply andb_true_iff in H as [H Hk].
+    apply andb_true_iff in H as [H Hr]. apply andb_true_iff in H as [Hcs Hc].
+    cbn [wrap_b ok_b ok_a forallb orb andb]. rewrite Hcs, Hc, Hr, Hk, (IHb Hb). reflexivity.
+  - intros cs eol b IHb H. cbn [wrap_b ok_b] in *. apply andb_true_iff in H as [H Hb]. rewrite H, (IHb Hb). reflexivity.
+  - intros cs da q b IHb H. cbn [wrap_b ok_b] in *. apply andb_true_iff in H as [H Hb]. rewrite H, (IHb Hb). reflexivity.
+  - intros b IHb H. exact (IHb H).
+  - intros b IHb a IHa H. cbn [wrap_a ok_a] in *. apply andb_true_iff in H as [H1 H2]. rewrite (IHb H1), (IHa H2). reflexivity.
+Qed.
+
+Lemma pre_ok xpath cs0 b : forallb ordinary cs0 = true -> ok_b xpath b = true -> ok_b xpath (pre_b cs0 b) = true.
+Proof.
+  intros H0 Hb. destruct b as [cs|cs cap a b'|cs c k rel b'|cs eol b'|cs da q b']; cbn [pre_b ok_b] in *; rewrite ?forallb_app, ?H0; cbn [andb].
+  - exact Hb.
+  - exact Hb.
+  - exact Hb.
+  - exact Hb.
+  - exact Hb.
+Qed.
+Lemma exa_ok xpath : (forall b, ok_b xpath b = true -> ok_b xpath (exa_b b) = true)
+                     /\ (forall a, ok_a xpath a = true -> ok_a xpath (exa_a a) = true).
+Proof.
+  apply branch_alt_ind.
+  - intros cs H. exact H.
+  - intros cs cap a IHa b IHb H. cbn [exa_b ok_b] in *. apply andb_true_iff in H as [H Hb]. apply andb_true_iff in H as [H Ha].
+    rewrite H, (IHa Ha), (IHb Hb). reflexivity.
+  - intros cs c k rel b IHb H. cbn [ok_b] in H. apply andb_true_iff in H as [H Hb]. apply andb_true_iff in H as [H Hk].
+    apply andb_true_iff in H as [H Hr]. apply andb_true_iff in H as [Hcs Hc].
+    destruct k as [| | |ds [| |d2]]; cbn [exa_b]; try (cbn [ok_b]; rewrite ?Hcs, ?Hc, ?Hr, ?Hk, ?(IHb Hb); reflexivity).
+    apply pre_ok; [apply forallb_app_rep; assumption|apply IHb; exact Hb].
+  - intros cs eol b IHb H. cbn [exa_b ok_b] in *. apply andb_true_iff in H as [H Hb]. rewrite H, (IHb Hb). reflexivity.
+  - intros cs da q b IHb H. cbn [exa_b ok_b] in *. apply andb_true_iff in H as [H Hb]. rewrite H, (IHb Hb). reflexivity.
+  - intros b IHb H. exact (IHb H).
+  - intros b IHb a IHa H. cbn [exa_a ok_a] in *. apply andb_true_iff in H as [H1 H2]. rewrite (IHb H1), (IHa H2). reflexivity.
 Qed.
 
 Section Laws.
@@ -467,6 +611,170 @@ Proof.
     cbn [bnd_a Da]. rewrite !in_app_iff, (IHb Okb p q Hp), (IHa Oka p q Hp). reflexivity.
 Qed.
 
+Theorem dup_D xpath :
+     (forall b, ok_b xpath b = true -> forall p q, p <= n -> (In q (Db input ci multi single (dup_b b) p) <-> In q (Db input ci multi single b p)))
+  /\ (forall a, ok_a xpath a = true -> forall p q, p <= n -> (In q (Da input ci multi single (dup_a a) p) <-> In q (Da input ci multi single a p))).
+Proof.
+  apply branch_alt_ind.
+  - intros cs _ p q Hp. reflexivity.
+  - intros cs cap a IHa b IHb Hok p q Hp. cbn [ok_b] in Hok. apply andb_true_iff in Hok as [Hok Okb].
+    apply andb_true_iff in Hok as [_ Oka]. cbn [dup_b Db].
+    apply flat_map_eqv.
+    + intros x. apply flat_map_eqv; [reflexivity|]. intros k Hk y. apply (IHa Oka). apply lit_le in Hk. tauto.
+    + intros x Hx y. apply (IHb Okb). apply in_flat_map in Hx as (k & Hk & Hx). apply lit_le in Hk.
+      eapply (proj2 (D_le input ci multi single xpath)); [apply (proj2 (dup_ok xpath)); exact Oka| |exact Hx]. tauto.
+  - intros cs c k rel b IHb Hok p q Hp. cbn [ok_b] in Hok. apply andb_true_iff in Hok as [Hok Okb].
+    apply andb_true_iff in Hok as [_ Hkq]. cbn [dup_b Db]. apply flat_map_eqv; [reflexivity|]. intros x Hx y. apply (IHb Okb).
+    apply in_flat_map in Hx as (k1 & Hk1 & Hx). apply lit_le in Hk1. eapply (Dq_le input ci multi single); [exact Hkq| |exact Hx]. tauto.
+  - intros cs eol b IHb Hok p q Hp. cbn [ok_b] in Hok. apply andb_true_iff in Hok as [_ Okb].
+    cbn [dup_b Db]. apply flat_map_eqv; [reflexivity|]. intros x Hx y. apply (IHb Okb).
+    apply in_flat_map in Hx as (k1 & Hk1 & Hx). apply lit_le in Hk1. eapply (Dan_le input ci multi single); [|exact Hx]. tauto.
+  - intros cs da q0 b IHb Hok p q Hp. cbn [ok_b] in Hok. apply andb_true_iff in Hok as [Hok Okb]. apply andb_true_iff in Hok as [_ Hkq].
+    cbn [dup_b Db]. apply flat_map_eqv; [reflexivity|]. intros x Hx y. apply (IHb Okb).
+    apply in_flat_map in Hx as (k1 & Hk1 & Hx). apply lit_le in Hk1. eapply (Dd_le input ci multi single xpath); [exact Hkq| |exact Hx]. tauto.
+  - intros b IHb Hok p q Hp. cbn [dup_a Da]. rewrite in_app_iff, (IHb Hok p q Hp). tauto.
+  - intros b IHb a IHa Hok p q Hp. cbn [ok_a] in Hok. apply andb_true_iff in Hok as [Okb Oka].
+    cbn [dup_a Da]. rewrite !in_app_iff, (IHb Okb p q Hp), (IHa Oka p q Hp). reflexivity.
+Qed.
+
+Theorem uncap_D :
+     (forall b, ok_b true b = true -> forall p q, p <= n -> (In q (Db input ci multi single (uncap_b b) p) <-> In q (Db input ci multi single b p)))
+  /\ (forall a, ok_a true a = true -> forall p q, p <= n -> (In q (Da input ci multi single (uncap_a a) p) <-> In q (Da input ci multi single a p))).
+Proof.
+  apply branch_alt_ind.
+  - intros cs _ p q Hp. reflexivity.
+  - intros cs cap a IHa b IHb Hok p q Hp. cbn [ok_b] in Hok. apply andb_true_iff in Hok as [Hok Okb].
+    apply andb_true_iff in Hok as [_ Oka]. cbn [uncap_b Db].
+    apply flat_map_eqv.
+    + intros x. apply flat_map_eqv; [reflexivity|]. intros k Hk y. apply (IHa Oka). apply lit_le in Hk. tauto.
+    + intros x Hx y. apply (IHb Okb). apply in_flat_map in Hx as (k & Hk & Hx). apply lit_le in Hk.
+      eapply (proj2 (D_le input ci multi single true)); [apply (proj2 uncap_ok); exact Oka| |exact Hx]. tauto.
+  - intros cs c k rel b IHb Hok p q Hp. cbn [ok_b] in Hok. apply andb_true_iff in Hok as [Hok Okb].
+    apply andb_true_iff in Hok as [_ Hkq]. cbn [uncap_b Db]. apply flat_map_eqv; [reflexivity|]. intros x Hx y. apply (IHb Okb).
+    apply in_flat_map in Hx as (k1 & Hk1 & Hx). apply lit_le in Hk1. eapply (Dq_le input ci multi single); [exact Hkq| |exact Hx]. tauto.
+  - intros cs eol b IHb Hok p q Hp. cbn [ok_b] in Hok. apply andb_true_iff in Hok as [_ Okb].
+    cbn [uncap_b Db]. apply flat_map_eqv; [reflexivity|]. intros x Hx y. apply (IHb Okb).
+    apply in_flat_map in Hx as (k1 & Hk1 & Hx). apply lit_le in Hk1. eapply (Dan_le input ci multi single); [|exact Hx]. tauto.
+  - intros cs da q0 b IHb Hok p q Hp. cbn [ok_b] in Hok. apply andb_true_iff in Hok as [Hok Okb]. apply andb_true_iff in Hok as [_ Hkq].
+    cbn [uncap_b Db]. apply flat_map_eqv; [reflexivity|]. intros x Hx y. apply (IHb Okb).
+    apply in_flat_map in Hx as (k1 & Hk1 & Hx). apply lit_le in Hk1. eapply (Dd_le input ci multi single true); [exact Hkq| |exact Hx]. tauto.
+  - intros b IHb Hok p q Hp. exact (IHb Hok p q Hp).
+  - intros b IHb a IHa Hok p q Hp. cbn [ok_a] in Hok. apply andb_true_iff in Hok as [Okb Oka].
+    cbn [uncap_a Da]. rewrite !in_app_iff, (IHb Okb p q Hp), (IHa Oka p q Hp). reflexivity.
+Qed.
+
+(* a quantified character alone in a non-capturing group is that quantified character *)
+Lemma wrap_step c k rel m q : okq k = true -> m <= n ->
+  (In q (Da input ci multi single (AOne (BQ [] c k rel (BEnd []))) m) <-> In q (Dq input ci multi single c k rel m)).
+Proof.
+  intros Hk Hm. cbn [Da Db]. rewrite (lit_nil input ci m Hm). cbn [flat_map]. rewrite app_nil_r, in_flat_map. split.
+  - intros (x & Hx & Hq). rewrite lit_nil in Hq by (eapply (Dq_le input ci multi single); eauto). destruct Hq as [<-|[]]. exact Hx.
+  - intros H. exists q. split; [exact H|]. rewrite lit_nil by (eapply (Dq_le input ci multi single); eauto). left. reflexivity.
+Qed.
+
+Theorem wrap_D :
+     (forall b, ok_b true b = true -> forall p q, p <= n -> (In q (Db input ci multi single (wrap_b b) p) <-> In q (Db input ci multi single b p)))
+  /\ (forall a, ok_a true a = true -> forall p q, p <= n -> (In q (Da input ci multi single (wrap_a a) p) <-> In q (Da input ci multi single a p))).
+Proof.
+  apply branch_alt_ind.
+  - intros cs _ p q Hp. reflexivity.
+  - intros cs cap a IHa b IHb Hok p q Hp. cbn [ok_b] in Hok. apply andb_true_iff in Hok as [Hok Okb].
+    apply andb_true_iff in Hok as [_ Oka]. cbn [wrap_b Db].
+    apply flat_map_eqv.
+    + intros x. apply flat_map_eqv; [reflexivity|]. intros k Hk y. apply (IHa Oka). apply lit_le in Hk. tauto.
+    + intros x Hx y. apply (IHb Okb). apply in_flat_map in Hx as (k & Hk & Hx). apply lit_le in Hk.
+      eapply (proj2 (D_le input ci multi single true)); [apply (proj2 wrap_ok); exact Oka| |exact Hx]. tauto.
+  - intros cs c k rel b IHb Hok p q Hp. cbn [ok_b] in Hok. apply andb_true_iff in Hok as [Hok Okb].
+    apply andb_true_iff in Hok as [_ Hkq]. cbn [wrap_b]. cbn [Db].
+    apply flat_map_eqv.
+    + intros x. apply flat_map_eqv; [reflexivity|]. intros k0 Hk0 y. apply wrap_step; [exact Hkq|]. apply lit_le in Hk0. tauto.
+    + intros x Hx y. apply (IHb Okb). apply in_flat_map in Hx as (k1 & Hk1 & Hx). apply lit_le in Hk1.
+      apply wrap_step in Hx; [|exact Hkq|tauto]. eapply (Dq_le input ci multi single); [exact Hkq| |exact Hx]. tauto.
+  - intros cs eol b IHb Hok p q Hp. cbn [ok_b] in Hok. apply andb_true_iff in Hok as [_ Okb].
+    cbn [wrap_b Db]. apply flat_map_eqv; [reflexivity|]. intros x Hx y. apply (IHb Okb).
+    apply in_flat_map in Hx as (k1 & Hk1 & Hx). apply lit_le in Hk1. eapply (Dan_le input ci multi single); [|exact Hx]. tauto.
+  - intros cs da q0 b IHb Hok p q Hp. cbn [ok_b] in Hok. apply andb_true_iff in Hok as [Hok Okb]. apply andb_true_iff in Hok as [_ Hkq].
+    cbn [wrap_b Db]. apply flat_map_eqv; [reflexivity|]. intros x Hx y. apply (IHb Okb).
+    apply in_flat_map in Hx as (k1 & Hk1 & Hx). apply lit_le in Hk1. eapply (Dd_le input ci multi single true); [exact Hkq| |exact Hx]. tauto.
+  - intros b IHb Hok p q Hp. exact (IHb Hok p q Hp).
+  - intros b IHb a IHa Hok p q Hp. cbn [ok_a] in Hok. apply andb_true_iff in Hok as [Okb Oka].
+    cbn [wrap_a Da]. rewrite !in_app_iff, (IHb Okb p q Hp), (IHa Oka p q Hp). reflexivity.
+Qed.
+
+(* a run put in front of a branch *)
+Lemma pre_D cs0 b p q : p <= n ->
+  (In q (Db input ci multi single (pre_b cs0 b) p) <-> exists k, In k (lit input ci cs0 p) /\ In q (Db input ci multi single b k)).
+Proof.
+  intros Hp.
+  assert (G : forall (F : nat -> list nat) cs,
+            In q (flat_map F (lit input ci (cs0 ++ cs) p)) <-> exists k, In k (lit input ci cs0 p) /\ In q (flat_map F (lit input ci cs k))).
+  { intros F cs. rewrite in_flat_map. split.
+    - intros (x & Hx & Hq). apply (lit_app2 cs0 cs p x Hp) in Hx. destruct Hx as (k & Hk & Hx).
+      exists k. split; [exact Hk|]. apply in_flat_map. eauto.
+    - intros (k & Hk & Hq). apply in_flat_map in Hq as (x & Hx & Hq). exists x. split; [|exact Hq].
+      apply (lit_app2 cs0 cs p x Hp). eauto. }
+  destruct b as [cs|cs cap a b'|cs c k rel b'|cs eol b'|cs da q0 b']; cbn [pre_b Db].
+  - split.
+    + intros H. apply (lit_app2 cs0 cs p q Hp) in H. exact H.
+    + intros H. apply (lit_app2 cs0 cs p q Hp). exact H.
+  - rewrite flat_map_assoc, G. split; intros (k & Hk & H); exists k; (split; [exact Hk|]); [rewrite flat_map_assoc|rewrite <- flat_map_assoc]; exact H.
+  - rewrite flat_map_assoc, G. split; intros (k0 & Hk & H); exists k0; (split; [exact Hk|]); [rewrite flat_map_assoc|rewrite <- flat_map_assoc]; exact H.
+  - rewrite flat_map_assoc, G. split; intros (k & Hk & H); exists k; (split; [exact Hk|]); [rewrite flat_map_assoc|rewrite <- flat_map_assoc]; exact H.
+  - rewrite flat_map_assoc, G. split; intros (k & Hk & H); exists k; (split; [exact Hk|]); [rewrite flat_map_assoc|rewrite <- flat_map_assoc]; exact H.
+Qed.
+
+(* c{n} = c^n *)
+Lemma exa_step c ds rel m q : m <= n ->
+  (In q (Dq input ci multi single c (QBr ds BrExact) rel m) <-> In q (lit input ci (repeat c (N.to_nat (dec ds))) m)).
+Proof.
+  intros Hm. unfold Dq. cbn [qmin qmaxo]. fold fl.
+  set (k0 := N.to_nat (dec ds)).
+  replace (Some (dec ds)) with (Some (N.of_nat (k0 + 0))) by (f_equal; subst k0; lia).
+  replace (dec ds) with (N.of_nat k0) by (subst k0; apply N2Nat.id).
+  pose proof (law_bounded fl input (RChar c) k0 0 (negb rel) I m q Hm) as L. rewrite L.
+  cbn [repeat]. rewrite app_nil_r.
+  rewrite <- (SE_run' (repeat c k0) m q Hm), map_rep. reflexivity.
+Qed.
+
+Theorem exa_D xpath :
+     (forall b, ok_b xpath b = true -> forall p q, p <= n -> (In q (Db input ci multi single (exa_b b) p) <-> In q (Db input ci multi single b p)))
+  /\ (forall a, ok_a xpath a = true -> forall p q, p <= n -> (In q (Da input ci multi single (exa_a a) p) <-> In q (Da input ci multi single a p))).
+Proof.
+  apply branch_alt_ind.
+  - intros cs _ p q Hp. reflexivity.
+  - intros cs cap a IHa b IHb Hok p q Hp. cbn [ok_b] in Hok. apply andb_true_iff in Hok as [Hok Okb].
+    apply andb_true_iff in Hok as [_ Oka]. cbn [exa_b Db].
+    apply flat_map_eqv.
+    + intros x. apply flat_map_eqv; [reflexivity|]. intros k Hk y. apply (IHa Oka). apply lit_le in Hk. tauto.
+    + intros x Hx y. apply (IHb Okb). apply in_flat_map in Hx as (k & Hk & Hx). apply lit_le in Hk.
+      eapply (proj2 (D_le input ci multi single xpath)); [apply (proj2 (exa_ok xpath)); exact Oka| |exact Hx]. tauto.
+  - intros cs c k rel b IHb Hok p q Hp. cbn [ok_b] in Hok. apply andb_true_iff in Hok as [Hok Okb].
+    apply andb_true_iff in Hok as [_ Hkq].
+    assert (Same : forall k0, okq k0 = true -> In q (Db input ci multi single (BQ cs c k0 rel (exa_b b)) p) <-> In q (Db input ci multi single (BQ cs c k0 rel b) p)).
+    { intros k0 Hk0q. cbn [Db]. apply flat_map_eqv; [reflexivity|]. intros x Hx y. apply (IHb Okb).
+      apply in_flat_map in Hx as (k1 & Hk1 & Hx). apply lit_le in Hk1. eapply (Dq_le input ci multi single); [exact Hk0q| |exact Hx]. tauto. }
+    destruct k as [| | |ds [| |d2]]; cbn [exa_b]; try (apply Same; exact Hkq).
+    (* {n} *)
+    rewrite (pre_D _ _ p q Hp). cbn [Db]. rewrite in_flat_map. split.
+    + intros (k2 & Hk2 & H). apply (lit_app2 cs _ p k2 Hp) in Hk2. destruct Hk2 as (k0 & Hk0 & Hk2).
+      assert (L0 : k0 <= n) by (apply lit_le in Hk0; tauto). assert (L2 : k2 <= n) by (apply lit_le in Hk2; tauto).
+      exists k2. split; [|apply (IHb Okb); assumption].
+      apply in_flat_map. exists k0. split; [exact Hk0|]. apply exa_step; assumption.
+    + intros (k2 & Hk2 & H). apply in_flat_map in Hk2 as (k0 & Hk0 & Hk2).
+      assert (L0 : k0 <= n) by (apply lit_le in Hk0; tauto).
+      apply exa_step in Hk2; [|exact L0]. assert (L2 : k2 <= n) by (apply lit_le in Hk2; tauto).
+      exists k2. split; [apply (lit_app2 cs _ p k2 Hp); eauto|apply (IHb Okb); assumption].
+  - intros cs eol b IHb Hok p q Hp. cbn [ok_b] in Hok. apply andb_true_iff in Hok as [_ Okb].
+    cbn [exa_b Db]. apply flat_map_eqv; [reflexivity|]. intros x Hx y. apply (IHb Okb).
+    apply in_flat_map in Hx as (k1 & Hk1 & Hx). apply lit_le in Hk1. eapply (Dan_le input ci multi single); [|exact Hx]. tauto.
+  - intros cs da q0 b IHb Hok p q Hp. cbn [ok_b] in Hok. apply andb_true_iff in Hok as [Hok Okb]. apply andb_true_iff in Hok as [_ Hkq].
+    cbn [exa_b Db]. apply flat_map_eqv; [reflexivity|]. intros x Hx y. apply (IHb Okb).
+    apply in_flat_map in Hx as (k1 & Hk1 & Hx). apply lit_le in Hk1. eapply (Dd_le input ci multi single xpath); [exact Hkq| |exact Hx]. tauto.
+  - intros b IHb Hok p q Hp. exact (IHb Hok p q Hp).
+  - intros b IHb a IHa Hok p q Hp. cbn [ok_a] in Hok. apply andb_true_iff in Hok as [Okb Oka].
+    cbn [exa_a Da]. rewrite !in_app_iff, (IHb Okb p q Hp), (IHa Oka p q Hp). reflexivity.
+Qed.
+
 Lemma Dmatch_eqv a1 a2 :
   (forall p q, p <= n -> (In q (Da input ci multi single a1 p) <-> In q (Da input ci multi single a2 p))) ->
   Dmatch input ci multi single a1 = Dmatch input ci multi single a2.
@@ -560,4 +868,87 @@ Proof.
   apply (rewrite_same_verdict bnd_a).
   - intros xpath a0. apply (proj2 (bnd_ok xpath)).
   - intros xpath input0 ci multi single a0. apply (proj2 (bnd_D input0 ci multi single xpath)).
+Qed.
+
+(* the same for rewritings that exist in one dialect only *)
+Section E2EX.
+Variable X : bool.
+Variable rw : alt -> alt.
+Hypothesis rw_ok : forall a, ok_a X a = true -> ok_a X (rw a) = true.
+Hypothesis rw_D : forall input ci multi single a, ok_a X a = true -> forall p q, p <= length input ->
+  (In q (Da input ci multi single (rw a) p) <-> In q (Da input ci multi single a p)).
+
+Theorem rewrite_same_verdict_X fl a input : f_xpath fl = X ->
+  ok_a X a = true -> f_literal fl = false -> f_ws fl = false -> (N.of_nat (length input) < umax)%N -> valid_in input ->
+  exists prog prog', compile true fl (show_a a) = Ok prog /\ compile true fl (show_a (rw a)) = Ok prog'
+    /\ match matches prog input 0 st0, matches prog' input 0 st0 with
+       | MTrue _, MTrue _ | MFalse _, MFalse _ => True
+       | _, _ => False
+       end.
+Proof.
+  intros HX Hok Hq Hw Hfit Hval.
+  assert (Hok1 : ok_a (f_xpath fl) a = true) by (rewrite HX; exact Hok).
+  assert (Hok2 : ok_a (f_xpath fl) (rw a) = true) by (rewrite HX; apply rw_ok; exact Hok).
+  destruct (compile_grammar_D fl a input Hok1 Hq Hw Hfit Hval) as (prog & E & M).
+  destruct (compile_grammar_D fl (rw a) input Hok2 Hq Hw Hfit Hval) as (prog' & E' & M').
+  exists prog, prog'. split; [exact E|]. split; [exact E'|].
+  rewrite (Dmatch_eqv input (f_case fl) (f_multi fl) (f_single fl) (rw a) a (rw_D input (f_case fl) (f_multi fl) (f_single fl) a Hok)) in M'.
+  destruct (matches prog input 0 st0); destruct (matches prog' input 0 st0); try contradiction; auto; congruence.
+Qed.
+End E2EX.
+
+(* r = r|r at the end of every alternation *)
+Theorem duplicate_law_end_to_end fl a input :
+  ok_a (f_xpath fl) a = true -> f_literal fl = false -> f_ws fl = false -> (N.of_nat (length input) < umax)%N -> valid_in input ->
+  exists prog prog', compile true fl (show_a a) = Ok prog /\ compile true fl (show_a (dup_a a)) = Ok prog'
+    /\ match matches prog input 0 st0, matches prog' input 0 st0 with
+       | MTrue _, MTrue _ | MFalse _, MFalse _ => True
+       | _, _ => False
+       end.
+Proof.
+  apply (rewrite_same_verdict dup_a).
+  - intros xpath a0. apply (proj2 (dup_ok xpath)).
+  - intros xpath input0 ci multi single a0. apply (proj2 (dup_D input0 ci multi single xpath)).
+Qed.
+
+(* every capturing group turned into a non-capturing one (XPath) *)
+Theorem uncapture_law_end_to_end fl a input : f_xpath fl = true ->
+  ok_a true a = true -> f_literal fl = false -> f_ws fl = false -> (N.of_nat (length input) < umax)%N -> valid_in input ->
+  exists prog prog', compile true fl (show_a a) = Ok prog /\ compile true fl (show_a (uncap_a a)) = Ok prog'
+    /\ match matches prog input 0 st0, matches prog' input 0 st0 with
+       | MTrue _, MTrue _ | MFalse _, MFalse _ => True
+       | _, _ => False
+       end.
+Proof.
+  apply (rewrite_same_verdict_X true uncap_a).
+  - apply (proj2 uncap_ok).
+  - intros input0 ci multi single a0. apply (proj2 (uncap_D input0 ci multi single)).
+Qed.
+
+(* every quantified character wrapped in (?: ) (XPath) *)
+Theorem wrap_law_end_to_end fl a input : f_xpath fl = true ->
+  ok_a true a = true -> f_literal fl = false -> f_ws fl = false -> (N.of_nat (length input) < umax)%N -> valid_in input ->
+  exists prog prog', compile true fl (show_a a) = Ok prog /\ compile true fl (show_a (wrap_a a)) = Ok prog'
+    /\ match matches prog input 0 st0, matches prog' input 0 st0 with
+       | MTrue _, MTrue _ | MFalse _, MFalse _ => True
+       | _, _ => False
+       end.
+Proof.
+  apply (rewrite_same_verdict_X true wrap_a).
+  - apply (proj2 wrap_ok).
+  - intros input0 ci multi single a0. apply (proj2 (wrap_D input0 ci multi single)).
+Qed.
+
+(* c{n} and c...c (n copies), from the pattern text *)
+Theorem exact_law_end_to_end fl a input :
+  ok_a (f_xpath fl) a = true -> f_literal fl = false -> f_ws fl = false -> (N.of_nat (length input) < umax)%N -> valid_in input ->
+  exists prog prog', compile true fl (show_a a) = Ok prog /\ compile true fl (show_a (exa_a a)) = Ok prog'
+    /\ match matches prog input 0 st0, matches prog' input 0 st0 with
+       | MTrue _, MTrue _ | MFalse _, MFalse _ => True
+       | _, _ => False
+       end.
+Proof.
+  apply (rewrite_same_verdict exa_a).
+  - intros xpath a0. apply (proj2 (exa_ok xpath)).
+  - intros xpath input0 ci multi single a0. apply (proj2 (exa_D input0 ci multi single xpath)).
 Qed.
